@@ -103,6 +103,7 @@ impl Directive {
         let mut next_item = NextItem::NewLine;
 
         let ParseContext {
+            include_depth,
             current_path,
             include_paths,
             common_context,
@@ -283,6 +284,7 @@ impl Directive {
                 if let DirectiveOps::OpList(values) = &opts {
                     if let Operand::S(include) = &values[0] {
                         let context = ParseContext {
+                            include_depth: include_depth + 1,
                             current_path: PathBuf::from(include),
                             include_paths: include_paths.clone(),
                             common_context: common_context.clone(),
